@@ -55,6 +55,29 @@ theorem tryGrow_get (p : Pool) (w : Nat) (x : Worker) (h : p.workers[w]? = some 
       · exact h
       · exact (List.getElem?_eq_some_iff.mp h).1
 
+theorem finish_workers (p : Pool) (t : Nat) (o : Outcome) : (finish p t o).workers = p.workers := by
+  unfold finish; split <;> rfl
+theorem finish_running (p : Pool) (t : Nat) (o : Outcome) : (finish p t o).running = p.running := by
+  unfold finish; split <;> rfl
+theorem finish_state (p : Pool) (t : Nat) (o : Outcome) : (finish p t o).state = p.state := by
+  unfold finish; split <;> rfl
+theorem inv_finish {p : Pool} (h : Inv11 p) (t : Nat) (o : Outcome) : Inv11 (finish p t o) := by
+  unfold Inv11 at *; rw [finish_workers, finish_running]; exact h
+
+theorem inv_setWorker_of {p q : Pool} (h : Inv11 p) (w : Nat) (x x' : Worker) (hx : p.workers[w]? = some x)
+    (ha : x'.alive = x.alive) (hw : q.workers = p.workers) (hr : q.running = p.running) : Inv11 (setWorker q w x') := by
+  unfold Inv11 countAlive setWorker at *
+  simp only
+  rw [hw, hr, countP_set_same (·.alive) p.workers w x x' hx ha]; exact h
+
+theorem inv_leave {p : Pool} (h : Inv11 p) (w : Nat) (x : Worker) (hx : p.workers[w]? = some x) (hal : x.alive = true)
+    (q : Pool) (hw : q.workers = p.workers) (hr : q.running = p.running - 1) :
+    Inv11 (setWorker q w { x with alive := false }) := by
+  unfold Inv11 countAlive setWorker at *
+  simp only
+  have := countP_set_flip (·.alive) p.workers w x { x with alive := false } hx hal rfl
+  rw [hw, hr]; omega
+
 /-- one resumption of a worker keeps the count exact -/
 theorem inv_resumeWorker (f : Nat) (p : Pool) (w : Nat) (h : Inv11 p) : Inv11 (resumeWorker f p w) := by
   induction f generalizing p with
@@ -69,32 +92,31 @@ theorem inv_resumeWorker (f : Nat) (p : Pool) (w : Nat) (h : Inv11 p) : Inv11 (r
       · rename_i halive
         have hal : x.alive = true := by simpa using halive
         split
-        · rename_i t ht
-          split
-          · exact ih _ (inv_setWorker_same (x := x) h w _ hx rfl)
-          · -- plain yield
-            rename_i r hr
-            have h1 : Inv11 (setWorker p w { x with rest := r }) := inv_setWorker_same h w x _ hx rfl
-            have h2 := inv_tryGrow h1
-            exact h2
-          · rename_i d r hr
-            have h1 : Inv11 (setWorker p w { x with rest := r }) := inv_setWorker_same h w x _ hx rfl
-            have h2 := inv_tryGrow h1
-            simp only
-            split <;> exact h2
-          · exact ih _ (inv_setWorker_same (x := x) h w _ hx rfl)
-          · exact ih _ (inv_setWorker_same (x := x) h w _ hx rfl)
+        · exact inv_leave h w x hx hal _ rfl rfl
         · split
-          · -- the worker leaves its loop: running − 1, one alive worker fewer
-            unfold Inv11 countAlive setWorker at *
-            simp only
-            have := countP_set_flip (·.alive) p.workers w x { x with alive := false } hx hal rfl
-            omega
-          · rename_i pr t q' hpop
-            simp only
+          · rename_i t ht
             split
-            · apply ih; exact h
-            · exact ih _ (inv_setWorker_same (x := x) h w _ hx rfl)
+            · exact ih _ (inv_setWorker_of h w x _ hx rfl (finish_workers _ _ _) (finish_running _ _ _))
+            · -- plain yield
+              rename_i r hr
+              have h1 : Inv11 (setWorker p w { x with rest := r }) := inv_setWorker_same h w x _ hx rfl
+              exact inv_tryGrow h1
+            · rename_i d r hr
+              have h1 : Inv11 (setWorker p w { x with rest := r }) := inv_setWorker_same h w x _ hx rfl
+              have h2 := inv_tryGrow h1
+              simp only
+              split <;> exact h2
+            · exact ih _ (inv_setWorker_of h w x _ hx rfl (finish_workers _ _ _) (finish_running _ _ _))
+            · exact ih _ (inv_setWorker_of h w x _ hx rfl (finish_workers _ _ _) (finish_running _ _ _))
+            · exact inv_tryGrow (inv_leave h w x hx hal _ rfl rfl)
+          · split
+            · -- the worker leaves its loop: running − 1, one alive worker fewer
+              exact inv_leave h w x hx hal _ rfl rfl
+            · rename_i pr t q' hpop
+              simp only
+              split
+              · apply ih; exact inv_finish (p := { p with tasks := q', cancelTasks := p.cancelTasks.filter (· != t) }) h _ _
+              · exact ih _ (inv_setWorker_same (x := x) h w _ hx rfl)
 
 theorem inv_wake (f : Nat) (p : Pool) (h : Inv11 p) : Inv11 (wake f p) := by
   induction f generalizing p with
@@ -158,17 +180,20 @@ theorem resumeWorker_state (f : Nat) (p : Pool) (w : Nat) : (resumeWorker f p w)
     · split
       · rfl
       · split
+        · rfl
         · split
-          · rw [ih]; rfl
-          · simp only [tryGrow_state]; rfl
-          · simp only; split <;> simp only [tryGrow_state] <;> rfl
-          · rw [ih]; rfl
-          · rw [ih]; rfl
-        · split
-          · rfl
-          · simp only; split
-            · rw [ih]; rfl
-            · rw [ih]; rfl
+          · split
+            · rw [ih]; exact finish_state _ _ _
+            · simp only [tryGrow_state]; rfl
+            · simp only; split <;> simp only [tryGrow_state] <;> rfl
+            · rw [ih]; exact finish_state _ _ _
+            · rw [ih]; exact finish_state _ _ _
+            · simp only [tryGrow_state]; rfl
+          · split
+            · rfl
+            · simp only; split
+              · rw [ih]; exact finish_state _ _ _
+              · rw [ih]; rfl
 
 theorem wake_state (f : Nat) (p : Pool) : (wake f p).state = p.state := by
   induction f generalizing p with
